@@ -185,3 +185,46 @@ func VerifC09_RawBefore() {
 	relSame(a, b)
 	vReach("compared")
 }
+
+// Require-order set on a command only (the root does not have it), the help
+// command declared afterwards as documented: the command still stops at its
+// first non-option, the root still does not.
+func VerifC09_CommandOnly() {
+	vNativeReset()
+	mode := vInt("mode", 0, 2)
+	um := vInt("um", 0, 2)
+	helpCmd := vBool("helpcmd")
+	t1 := vString("t1")
+	p := positional("p", "wrap", "help")
+	opt := New()
+	setMode(opt, mode)
+	setUnknown(opt, um)
+	flag := opt.Bool("flag", false)
+	wrap := opt.NewCommand("wrap", "")
+	wrap.SetRequireOrder()
+	after := wrap.Bool("after", false)
+	if helpCmd {
+		opt.HelpCommand("help", opt.Alias("?"))
+	}
+	vPhase("run")
+	rem, err := opt.Parse([]string{"wrap", "--flag", p, "--after", "--", t1})
+	vObserve("err", err)
+	vObserve("rem", rem)
+	vAssert("command-only/no-error", err == nil)
+	vAssert("command-only/rest-verbatim", eqStrs(rem, []string{p, "--after", "--", t1}))
+	vAssert("command-only/before-stop", *flag)
+	vAssert("command-only/not-after-stop", !*after && !opt.Called("after"))
+	// the root itself keeps interpreting options behind a positional
+	opt2 := New()
+	setMode(opt2, mode)
+	flag2 := opt2.Bool("flag", false)
+	w2 := opt2.NewCommand("wrap", "")
+	w2.SetRequireOrder()
+	if helpCmd {
+		opt2.HelpCommand("help", opt2.Alias("?"))
+	}
+	rem2, err2 := opt2.Parse([]string{p, "--flag"})
+	vAssert("command-only/root-no-error", err2 == nil)
+	vAssert("command-only/root-goes-on", *flag2 && eqStrs(rem2, []string{p}))
+	vReach("parsed")
+}
